@@ -69,23 +69,29 @@ Proof. intros [] [] []; vm_compute; reflexivity. Qed.
 (* metadata: ONE results_store.add(self.tag, self.sequence_id, None) on every
    evaluation, unconditionally - the references are positions in THIS
    store, nothing is remembered on the definition or anywhere else *)
-Theorem C05_metadata_tree : tk_result_metadata = expected_result_metadata.
+Theorem C05_metadata_tree :
+  same_paths tk_result_metadata expected_result_metadata = true.
 Proof. vm_compute. reflexivity. Qed.
 
 (* export: a SearchResultMinimal of the parts, that metadata, line, source,
    section and field info *)
-Theorem C05_export_tree : tk_result_export = expected_result_export.
+Theorem C05_export_tree :
+  same_paths tk_result_export expected_result_export = true.
 Proof. vm_compute. reflexivity. Qed.
 
 Theorem C05_result_base_init_tree :
-  tk_result_base_init = expected_result_base_init.
+  same_paths tk_result_base_init expected_result_base_init = true.
 Proof. vm_compute. reflexivity. Qed.
 
 (* __iter__: one store.get per part, in order (Model.Result.iter) *)
-Theorem C05_iter_tree : tk_result_iter = expected_result_iter.
+Theorem C05_iter_tree :
+  same_paths tk_result_iter expected_result_iter = true.
 Proof. vm_compute. reflexivity. Qed.
 
-Theorem C05_minimal_init_tree : tk_minimal_init = expected_minimal_init.
+(* every attribute is written once, in this order, on every path (an
+   if/else and a conditional expression are the same) *)
+Theorem C05_minimal_init_tree :
+  same_paths tk_minimal_init expected_minimal_init = true.
 Proof. vm_compute. reflexivity. Qed.
 
 (* __getattr__ (Model.Result.getattr): declared field names -> get(name),
@@ -99,13 +105,13 @@ Proof. vm_compute. reflexivity. Qed.
    test, then store.get; the test is `idx is None` (statement shape
    recognised by translator/plugins/catalog.py) *)
 Theorem C05_tag_tree :
-  tk_minimal_tag = expected_minimal_meta /\
-  tk_minimal_sequence_id = expected_minimal_meta /\
+  same_paths tk_minimal_tag expected_minimal_meta = true /\
+  same_paths tk_minimal_sequence_id expected_minimal_meta = true /\
   x_result_meta_none_iff_slot_none = true.
 Proof. vm_compute. repeat split. Qed.
 
 Theorem C05_register_results_store_tree :
-  tk_register_results_store = expected_register_results_store.
+  same_paths tk_register_results_store expected_register_results_store = true.
 Proof. vm_compute. reflexivity. Qed.
 
 (* in-process search (ResultStoreSimple) *)
